@@ -92,7 +92,7 @@ func C02Grid(tier string) []*Config {
 	}
 	// 5-handed, stacks equal to the big blind: the shortest uneven split needs exactly this shape
 	for _, br := range vectors(5, []int64{1, 2}) {
-		add(cfg(br, 0, 1, 2, 0, false, 0, "no", "sv:0,1,1,1,0", 2, 0, "standard", "classes"))
+		add(cfg(br, 0, 1, 2, 0, false, 0, "no", "sv:1,0,1,1,0", 2, 0, "standard", "classes"))
 	}
 	if tier == "thorough" {
 		for _, br := range vectors(5, []int64{2, 3, 5}) {
